@@ -69,25 +69,33 @@ def rmcp_payload(pdu):
 
 # ------------------------------------------------------------------ RMCP
 class FakeSock(object):
+    """UDP socket of `Rmcp`.  `arrived` is the socket's receive queue: datagrams that were delivered
+    but not read yet (they stay there from one request to the next); `script` is what the network
+    delivers from now on.  A blocking `recvfrom` takes the oldest arrived datagram, else the next
+    script event; a NON-blocking one (`settimeout(0)`: the repaired transport discards stale datagrams
+    that way before it sends a request) sees only what has already arrived and raises BlockingIOError
+    when there is nothing."""
+
     def __init__(self):
+        self.arrived = []
         self.script = []
         self.sent = []
-        self.consumed = 0
+        self.consumed = 0          # events taken from `script`
+        self.taken = 0             # datagrams taken from `arrived` by blocking reads
+        self.drained = 0           # datagrams taken from `arrived` by non-blocking reads
+        self.timeout = 2.0
 
     def settimeout(self, t):
-        pass
+        self.timeout = t
+
+    def gettimeout(self):
+        return self.timeout
 
     def sendto(self, pdu, addr):
         self.sent.append(bytes(pdu))
 
-    def recvfrom(self, n):
-        if not self.script:
-            raise socket.timeout()
-        ev = self.script.pop(0)
-        self.consumed += 1
+    def _deliver(self, ev):
         k = ev[0]
-        if k == 'T':
-            raise socket.timeout()
         if k == 'M':
             return (rmcp_wrap(b'\x20\x1c\xc4\x81\x00\x01\x00\x7e', version=5), ('bmc', 623))
         if k == 'F':
@@ -95,6 +103,23 @@ class FakeSock(object):
         if k == 'L':
             return (rmcp_wrap(bytes.fromhex(ev[1]), len_delta=1), ('bmc', 623))
         raise ValueError('bad rmcp event %r' % (ev,))
+
+    def recvfrom(self, n):
+        if self.timeout == 0:
+            if not self.arrived:
+                raise BlockingIOError(11, 'Resource temporarily unavailable')
+            self.drained += 1
+            return self._deliver(self.arrived.pop(0))
+        if self.arrived:
+            self.taken += 1
+            return self._deliver(self.arrived.pop(0))
+        if not self.script:
+            raise socket.timeout()
+        ev = self.script.pop(0)
+        self.consumed += 1
+        if ev[0] == 'T':
+            raise socket.timeout()
+        return self._deliver(ev)
 
 
 def make_rmcp(max_retries=0, ignore_rq_seq=False, ignore_sdu_length=False, slave_address=0x81):
